@@ -28,6 +28,26 @@ class TupleV:
         return "T(%s)" % ", ".join(map(repr, self.items))
 
 
+class NamedTupleV(TupleV):
+    """instance of a collections.namedtuple class: a tuple whose items can also be read by field name"""
+    __slots__ = ("fields",)
+
+    def __init__(self, items, fields):
+        TupleV.__init__(self, items, "tuple")
+        self.fields = tuple(fields)
+
+
+class NamedTupleCls:
+    """the class collections.namedtuple(name, fields) returns"""
+    __slots__ = ("name", "fields", "defaults")
+
+    def __init__(self, name, fields, defaults=()):
+        self.name, self.fields, self.defaults = name, tuple(fields), tuple(defaults)
+
+    def __repr__(self):
+        return "<namedtuple %s%s>" % (self.name, self.fields)
+
+
 class Closure:
     __slots__ = ("node", "env", "ctx", "locals")
 
@@ -784,6 +804,8 @@ class Interp:
                 rest = sorted(x for x in v.func.locals if x not in v.func.posparams and x not in v.func.kwonly)
                 return TupleV([StaticV(x) for x in list(v.func.posparams) + list(v.func.kwonly) + rest], ARGS)
             raise Inconclusive("code object attribute .%s not modelled" % attr, n)
+        if isinstance(v, NamedTupleV) and attr in v.fields:
+            return v.items[v.fields.index(attr)]
         if isinstance(v, ExtRef):
             return self.global_value(v.dotted + "." + attr, n, ctx)
         if isinstance(v, ObjV):
@@ -1122,6 +1144,36 @@ class Interp:
             return obj
         if isinstance(fv, Closure):
             return self.call_closure(fv, args, kwargs, n, env, ctx)
+        if isinstance(fv, NamedTupleCls):
+            if any(isinstance(a, tuple) and len(a) == 2 and a[0] == "*" for a in args) or "**" in kwargs:
+                raise Inconclusive("star-argument construction of namedtuple %s not modelled" % fv.name, n)
+            vals = dict(zip(fv.fields, args))
+            if len(args) > len(fv.fields) or set(kwargs) - set(fv.fields) or set(kwargs) & set(vals):
+                raise Inconclusive("namedtuple %s constructed with arguments that do not fit its fields" % fv.name, n)
+            vals.update(kwargs)
+            nd = len(fv.defaults)
+            for k_, fld in enumerate(fv.fields):
+                if fld not in vals:
+                    j_ = k_ - (len(fv.fields) - nd)
+                    if j_ < 0:
+                        raise Inconclusive("namedtuple %s constructed without its field %s" % (fv.name, fld), n)
+                    vals[fld] = fv.defaults[j_]
+            return NamedTupleV([vals[fld] for fld in fv.fields], fv.fields)
+        if isinstance(fv, ExtRef) and fv.dotted == "collections.namedtuple" and len(args) >= 2 and not (set(kwargs) - {"defaults"}):
+            # namedtuple('Name', ['a', 'b']) / 'a b' / 'a, b': a record class with these fields
+            nm = fl = None
+            if isinstance(n, ast.Call) and len(n.args) >= 2 and not any(isinstance(a_, ast.Starred) for a_ in n.args):
+                try:
+                    nm, fl = ast.literal_eval(n.args[0]), ast.literal_eval(n.args[1])
+                except (ValueError, SyntaxError):
+                    nm = fl = None
+            if isinstance(fl, str):
+                fl = fl.replace(",", " ").split()
+            if isinstance(nm, str) and isinstance(fl, (list, tuple)) and all(isinstance(x_, str) for x_ in fl):
+                dv = kwargs.get("defaults")
+                dl = list(dv.items) if isinstance(dv, TupleV) else []
+                if dv is None or isinstance(dv, TupleV):
+                    return NamedTupleCls(nm, fl, dl)
         if isinstance(fv, ExtRef):
             if self.model_partial and fv.dotted == "functools.partial" and args and not any(isinstance(a, tuple) and a and a[0] == "*" for a in args[:1]) \
                     and isinstance(args[0], (ExtRef, FuncRef, Closure, BoundMethod, PartialV)):
